@@ -296,7 +296,7 @@ func ruleLivenessFailSafe(c *Ctx, rule string) {
 	fn := c.MustFn(rule, spPkg, "runningAndUidMatch")
 	if fn != nil {
 		// param 2 is err; on err != nil, return false only through IsNotFound
-		errNN := guardEdges(fn, predNeq(func(v ssa.Value) bool { return sameParam(v, fn.Params[2]) }, isNilConst))
+		errNN := guardEdges(fn, predNeq(func(v ssa.Value) bool { return sameParam(v, pAt(fn, 2)) }, isNilConst))
 		if len(errNN) != 1 {
 			c.undecided(rule, fn, "err != nil test", nil, "expected one test of the err parameter against nil")
 		} else {
@@ -316,7 +316,7 @@ func ruleLivenessFailSafe(c *Ctx, rule string) {
 		}
 		// not-finished pod => running: return false after the uid check only via finished(pod)
 		fin := guardEdges(fn, predCall(spPkg+".finished", nil))
-		uidMis := guardEdges(fn, predNeq(func(v ssa.Value) bool { return sameParam(v, fn.Params[0]) }, func(v ssa.Value) bool {
+		uidMis := guardEdges(fn, predNeq(func(v ssa.Value) bool { return sameParam(v, pAt(fn, 0)) }, func(v ssa.Value) bool {
 			return dependsOn(v, func(x ssa.Value) bool {
 				call, ok := x.(*ssa.Call)
 				return ok && strings.HasSuffix(calleeName(call), ".GetUID")
@@ -376,11 +376,21 @@ func ruleReleaseEventsQueued(c *Ctx, rule string) {
 				out = append(out, s)
 			}
 		})
+		if len(out) == 0 {
+			// the send may have been extracted into a small helper (enqueue(pod)); the walks follow the helper call
+			for _, h := range helperFns(fn, 1) {
+				allInstrs(h, func(in ssa.Instruction) {
+					if s, ok := in.(*ssa.Send); ok && isUnreleased(s.Chan) {
+						out = append(out, s)
+					}
+				})
+			}
+		}
 		return out
 	}
 	if fn := c.MustFn(rule, spPkg, "(*FloatingIPPlugin).Bind"); fn != nil {
 		ss := sends(fn)
-		nf := guardEdges(fn, predCall("errors.IsNotFound", nil))
+		nf := guardEdgesX(fn, predCall("errors.IsNotFound", nil))
 		if len(ss) == 0 {
 			c.note("%s: Bind no longer queues a release event", rule)
 		}
@@ -393,8 +403,8 @@ func ruleReleaseEventsQueued(c *Ctx, rule string) {
 		if len(ss) != 1 {
 			c.ob(rule, fn, "finish transition queues a release event", nil, false, fmt.Sprintf("expected one send on p.unreleased, found %d", len(ss)))
 		}
-		finNew := guardEdges(fn, predCall(spPkg+".finished", func(call *ssa.Call) bool { return sameParam(call.Call.Args[0], fn.Params[2]) }))
-		notFinOld := guardEdges(fn, negate(predCall(spPkg+".finished", func(call *ssa.Call) bool { return sameParam(call.Call.Args[0], fn.Params[1]) })))
+		finNew := guardEdges(fn, predCall(spPkg+".finished", func(call *ssa.Call) bool { return sameParam(call.Call.Args[0], pAt(fn, 2)) }))
+		notFinOld := guardEdges(fn, negate(predCall(spPkg+".finished", func(call *ssa.Call) bool { return sameParam(call.Call.Args[0], pAt(fn, 1)) })))
 		for _, s := range ss {
 			c.ob(rule, fn, "release event only on the not-finished -> finished transition", s, guardedBy(fn, s, finNew) && guardedBy(fn, s, notFinOld), "send guarded by !finished(oldPod) && finished(newPod)")
 			// the event carries the new pod
